@@ -107,8 +107,20 @@ static UnitPick pick(const Batch& b, uint64_t idx) {
     UnitPick p; size_t n = b.replicas.size();
     if (b.mode == "crossrep") { p.reps = b.replicas; p.views = {b.view >= 0 ? b.view : (int) (idx % 2)}; }
     else if (b.mode == "crossview") { p.reps = {b.replicas[idx % n]}; p.views = {0, 1}; }
-    else { p.reps = {b.replicas[idx % n]}; p.views = {b.view >= 0 ? b.view : (int) ((idx / n) % 2)}; }
+    else { p.reps = {b.replicas[idx % n]}; p.views = {b.view >= 0 ? b.view : (int) ((idx / n) % 2)}; }   // single, duo, flipdispatch
     return p;
+}
+
+// duo plans: ops of plan A, a "||" marker, ops of plan B; B's configuration lives in cfg keys prefixed "B."
+static void split_duo(const Plan& p, Plan& A, Plan& B) {
+    A.scenario = B.scenario = p.scenario; bool second = false;
+    for (auto& kv : p.cfg) { if (kv.first.compare(0, 2, "B.") == 0) B.cfg[kv.first.substr(2)] = kv.second; else A.cfg[kv.first] = kv.second; }
+    for (auto& op : p.ops) { if (op.kind == "||") { second = true; continue; } (second ? B : A).ops.push_back(op); }
+    if (B.cfg.empty()) B.cfg = A.cfg;
+}
+static Plan join_duo(const Plan& A, const Plan& B) {
+    Plan p = A; for (auto& kv : B.cfg) p.cfg["B." + kv.first] = kv.second;
+    p.ops.push_back({"||", {}, {}}); for (auto& op : B.ops) p.ops.push_back(op); return p;
 }
 
 static std::string first_log_difference(const RunResult& a, const RunResult& b) {
@@ -121,6 +133,32 @@ static std::string first_log_difference(const RunResult& a, const RunResult& b) 
 // result carries the counters/cases of the first execution.
 static RunResult run_fixed(const Plan& plan, Replicas& reps, const std::string& mode, const UnitPick& p, const std::string& focus, bool verbose) {
     if (mode == "single") return execute_plan(plan, reps, p.reps[0], p.views[0], verbose, focus, false);
+    if (mode == "duo") {
+        // The schedules dimension for every property: two plans of the same scenario run as two caller threads under the
+        // serialising seeded scheduler (preemption at every field multiplication and callback), each with its own model, stream
+        // and oracles. A property oracle that fails here fails "for some interleaving of concurrent callers".
+        Plan A, B; split_duo(plan, A, B);
+        RunResult ra, rb; Scheduler sched; { uint64_t hh = hash64(A.to_json()->dump(false)); sched.p_switch_log2 = hh % 3 == 0 ? 62 : (uint32_t) (2 + (hh >> 8) % 11); }   // 62: coarse schedule, preemption only at the callbacks
+        sched.add([&] { ra = execute_plan(A, reps, p.reps[0], p.views[0], verbose, focus, false); });
+        sched.add([&] { rb = execute_plan(B, reps, p.reps[0], p.views[0], verbose, focus, false); });
+        sched.run(hash64(B.to_json()->dump(false)));
+        RunResult out = ra;
+        for (auto& kv : rb.counters) out.counters[kv.first] += kv.second;
+        out.cases.insert(out.cases.end(), rb.cases.begin(), rb.cases.end());
+        out.counters["fault:preemption_inside_library_call"] += sched.switches; out.counters["probe:yield_points_passed"] += sched.global_yield;
+        out.fingerprint = sha_hex((ra.fingerprint + rb.fingerprint).data(), ra.fingerprint.size() + rb.fingerprint.size(), 16);
+        if (ra.violated || rb.violated) {
+            const RunResult& bad = ra.violated ? ra : rb;
+            out.violated = true; out.v = bad.v; out.v.detail += strf(" [while another caller thread ran a second history concurrently: %llu context switches inside library calls]", (unsigned long long) sched.switches);
+            return out;
+        }
+        // M-solo: each history alone must give the same log
+        RunResult sa = execute_plan(A, reps, p.reps[0], p.views[0], false, focus, false), sb = execute_plan(B, reps, p.reps[0], p.views[0], false, focus, false);
+        if (!sa.violated && !sb.violated && (sa.fingerprint != ra.fingerprint || sb.fingerprint != rb.fingerprint)) {
+            out.violated = true; out.v = {"C20", "M-solo:concurrent-equals-sequential", "a history gives a different event log when another caller thread runs concurrently", 0};
+        }
+        return out;
+    }
     if (mode == "flipdispatch") {
         // S5 configuration fault: swap replica A's three run-time dispatch pointers between the two routine families at seeded yield points
         RunResult a = execute_plan(plan, reps, p.reps[0], p.views[0], verbose, focus, false);
@@ -178,6 +216,7 @@ static Plan plan_for(const Batch& b, size_t bidx, uint64_t seed, uint64_t idx) {
     std::map<std::string, int64_t> knobs = b.knobs; knobs["__idx"] = (int64_t) idx;
     Plan p = sc->generate(rs, knobs);
     p.scenario = b.scenario;
+    if (b.mode == "duo") { knobs["__idx"] = (int64_t) idx + 1000003; Plan q = sc->generate(mix3(rs, 0xD00, idx), knobs); q.scenario = b.scenario; return join_duo(p, q); }
     return p;
 }
 
